@@ -116,6 +116,22 @@ def _f_change_encoding(ctx, x):
     return [arg], lambda: ctx.lst(change_encoding(arg, BaseEncoding))
 
 
+AL = [48, 49, 50, 46]
+SEP = [47, 124]
+
+
+@reg("genotype_encode", lambda V: _decl_text(V, [(f"g{r}{k}", AL if k % 2 == 0 else SEP) for r in range(4) for k in range(3)]))
+def _f_genotype(ctx, x):
+    """rows of VCF genotype columns as they stand in a file ('a/b<TAB>c|d<NEWLINE>'), encoded with the genotype row encodings"""
+    from bionumpy.encodings.vcf_encoding import GenotypeRowEncoding, PhasedGenotypeRowEncoding
+    xs = dict(x); xs.update(TAB=9, NL=10)
+    names = []
+    for r in range(2):
+        names += [f"g{2 * r}0", f"g{2 * r}1", f"g{2 * r}2", "TAB", f"g{2 * r + 1}0", f"g{2 * r + 1}1", f"g{2 * r + 1}2", "NL"]
+    arg = _era(ctx, xs, names, [8, 8])
+    return [arg], lambda: [ctx.lst(GenotypeRowEncoding.encode(arg)), ctx.lst(GenotypeRowEncoding.decode(GenotypeRowEncoding.encode(arg)))]
+
+
 @reg("reverse_complement", lambda V: _decl_text(V, [(f"b{i}", [65, 67, 71, 84, 78, 97, 99, 103, 116, 110]) for i in range(4)]))
 def _f_revcomp(ctx, x):
     from bionumpy.sequence import get_reverse_complement
@@ -197,7 +213,7 @@ class Pure(Harness):
                        "also as not yet materialised selections (row slice / index list / mask) whose content is known from the inputs",
               "thorough": "same registry"}
 
-    TEXT_FNS = ("str_to_int", "str_to_float", "split_join", "change_encoding", "reverse_complement", "translate", "kmers")
+    TEXT_FNS = ("str_to_int", "str_to_float", "split_join", "change_encoding", "reverse_complement", "translate", "kmers", "genotype_encode")
 
     def skeletons(self, tier, seed):
         out = [dict(fn=n) for n in REGISTRY]
